@@ -1552,6 +1552,20 @@ func matchSetOptionsRestrictedTypeToAPI(t oc.MatchSetOptionsRestrictedType) api.
 	return api.MatchSet_TYPE_ANY
 }
 
+// communityActionTypeToAPI maps the option of a (ext-/large-) community action
+// to the API enumeration, whose values are not the option's index.
+func communityActionTypeToAPI(o oc.BgpSetCommunityOptionType) api.CommunityAction_Type {
+	switch o {
+	case oc.BGP_SET_COMMUNITY_OPTION_TYPE_ADD:
+		return api.CommunityAction_TYPE_ADD
+	case oc.BGP_SET_COMMUNITY_OPTION_TYPE_REMOVE:
+		return api.CommunityAction_TYPE_REMOVE
+	case oc.BGP_SET_COMMUNITY_OPTION_TYPE_REPLACE:
+		return api.CommunityAction_TYPE_REPLACE
+	}
+	return api.CommunityAction_TYPE_UNSPECIFIED
+}
+
 func toStatementApi(s *oc.Statement) *api.Statement {
 	cs := &api.Conditions{}
 	if s.Conditions.MatchPrefixSet.PrefixSet != "" {
@@ -1658,17 +1672,8 @@ func toStatementApi(s *oc.Statement) *api.Statement {
 			if len(s.Actions.BgpActions.SetCommunity.SetCommunityMethod.CommunitiesList) == 0 {
 				return nil
 			}
-			action := api.CommunityAction_TYPE_UNSPECIFIED
-			switch oc.BgpSetCommunityOptionType(s.Actions.BgpActions.SetCommunity.Options) {
-			case oc.BGP_SET_COMMUNITY_OPTION_TYPE_ADD:
-				action = api.CommunityAction_TYPE_ADD
-			case oc.BGP_SET_COMMUNITY_OPTION_TYPE_REMOVE:
-				action = api.CommunityAction_TYPE_REMOVE
-			case oc.BGP_SET_COMMUNITY_OPTION_TYPE_REPLACE:
-				action = api.CommunityAction_TYPE_REPLACE
-			}
 			return &api.CommunityAction{
-				Type:        action,
+				Type:        communityActionTypeToAPI(oc.BgpSetCommunityOptionType(s.Actions.BgpActions.SetCommunity.Options)),
 				Communities: s.Actions.BgpActions.SetCommunity.SetCommunityMethod.CommunitiesList,
 			}
 		}(),
@@ -1717,7 +1722,7 @@ func toStatementApi(s *oc.Statement) *api.Statement {
 				return nil
 			}
 			return &api.CommunityAction{
-				Type:        api.CommunityAction_Type(oc.BgpSetCommunityOptionTypeToIntMap[oc.BgpSetCommunityOptionType(s.Actions.BgpActions.SetExtCommunity.Options)]),
+				Type:        communityActionTypeToAPI(oc.BgpSetCommunityOptionType(s.Actions.BgpActions.SetExtCommunity.Options)),
 				Communities: s.Actions.BgpActions.SetExtCommunity.SetExtCommunityMethod.CommunitiesList,
 			}
 		}(),
@@ -1726,7 +1731,7 @@ func toStatementApi(s *oc.Statement) *api.Statement {
 				return nil
 			}
 			return &api.CommunityAction{
-				Type:        api.CommunityAction_Type(oc.BgpSetCommunityOptionTypeToIntMap[s.Actions.BgpActions.SetLargeCommunity.Options]),
+				Type:        communityActionTypeToAPI(s.Actions.BgpActions.SetLargeCommunity.Options),
 				Communities: s.Actions.BgpActions.SetLargeCommunity.SetLargeCommunityMethod.CommunitiesList,
 			}
 		}(),
